@@ -17,7 +17,8 @@ from ..report import Report, key_of
 from ..types import Ctx
 from .c01 import check_run_argument_binding
 from .c08 import check_expand_tasks
-from .common import TRUSTED_BASE, effects_of, where
+from ..terms import assume, pretty
+from .common import TRUSTED_BASE, bound_args, effects_of, inl, subst_single_assign, where
 
 STAGES = ['_process_config', '_create_tasks', '_process_dependencies', '_build_graph', '_init_objects']
 
@@ -99,15 +100,23 @@ def run(A, R: Report, thorough: bool):
     # ---- R19.3
     R.rule('R19.3', 'the parameters given to the helper are the config data, unchanged', floor=1)
     tinit = tc.methods.get('__init__')
-    cfgs = [n for n in A.typer.own_nodes(tinit) if isinstance(n, ast.Call) and src(n.func) == 'Config']
+    cfgs = [n for n in inl(A, tinit) if isinstance(n, ast.Call) and src(n.func) == 'Config']
     R.require(cfgs, 'anchor: Config(...) construction missing in TestChain.__init__')
     pname = 'parameters'
+    R.require(pname in tinit.params, 'anchor: TestChain.__init__ has no `parameters` argument')
+    cinit = A.cls('Config').lookup('__init__')
+    pt = ('p', pname)
     for c in cfgs:
-        data = next((src(kw.value) for kw in c.keywords if kw.arg == 'data'), None)
-        reassign = [n for n in A.typer.own_nodes(tinit) if isinstance(n, ast.Assign) and any(src(t) == pname for t in n.targets)]
-        only_default = all(isinstance(n.value, ast.Dict) and not n.value.keys and any(isinstance(p, ast.If) and src(p.test) == f'{pname} is None' for p in _parents(n)) for n in reassign)
-        R.check(data == pname and only_default, 'R19.3', 'TestChain.__init__: Config(data=...)', key_of('params', data, [src(n)[:60] for n in reassign]), 'data = the parameters argument',
-                f'the helper\'s config data is `{data}` after {[src(n)[:60] for n in reassign]}: parameters are filtered or rewritten before the task sees them (a real chain passes them as given)', where=where(tinit, c))
+        ba = bound_args(c, cinit) or {}
+        dn = ba.get('data')
+        ts = A.sym.terms_at(tinit, ('inst', tc), [dn])[id(dn)] if dn is not None else []
+        # the data are the argument itself; only `None` may be replaced (by an empty mapping)
+        ok = bool(ts) and all(assume(t, lambda c_: False if c_ == ('cmp', 'Is', pt, ('lit', None)) else (True if c_ in (pt, ('cmp', 'IsNot', pt, ('lit', None))) else None)) == pt
+                              and assume(t, lambda c_: True if c_ == ('cmp', 'Is', pt, ('lit', None)) else (False if c_ in (pt, ('cmp', 'IsNot', pt, ('lit', None))) else None)) in (('dict', ()), pt, ('call', 'dict', ()))
+                              for t in ts)
+        shown = pretty(ts[0])[:160] if ts else None
+        R.check(ok, 'R19.3', 'TestChain.__init__: Config(data=...)', key_of('params', shown), 'data = the parameters argument',
+                f'the helper\'s config data is `{shown}`: parameters are filtered or rewritten before the task sees them (a real chain passes them as given)', where=where(tinit, c))
     sup = [n for n in A.typer.own_nodes(tinit) if isinstance(n, ast.Call) and src(n.func) == 'super().__init__']
     R.check(bool(sup) and all(len(c.args) == 1 and src(c.args[0]) == 'self.config' and not c.keywords for c in sup), 'R19.3', 'TestChain.__init__: super().__init__', key_of('super-init'), 'base chain built from the helper config (parameter mode default)',
             'the base Chain is not constructed from the helper\'s config with default settings', where=where(tinit))
@@ -115,14 +124,26 @@ def run(A, R: Report, thorough: bool):
     # ---- R19.4
     R.rule('R19.4', 'create_test_task builds TestChain([task], parameters, mocks, base_dir) and returns chain[task.fullname(config)]', floor=1)
     fctt = A.func('create_test_task')
-    tcs = [n for n in A.typer.own_nodes(fctt) if isinstance(n, ast.Call) and src(n.func) == 'TestChain']
+    tcs = [n for n in inl(A, fctt) if isinstance(n, ast.Call) and src(n.func) == 'TestChain']
     ok = False
+    tinit4 = tc.methods.get('__init__')
     for c in tcs:
-        kws = {kw.arg: src(kw.value) for kw in c.keywords}
-        pos = [src(a) for a in c.args]
-        ok = (pos[:1] == [f'[{fctt.params[0]}]'] or kws.get('tasks') == f'[{fctt.params[0]}]') and kws.get('parameters') == 'parameters' and kws.get('mock_tasks') == 'input_tasks' and kws.get('base_dir') == 'base_dir'
+        ba = bound_args(c, tinit4) or {}
+        at = A.sym.terms_at(fctt, None, list(ba.values()))
+        got = {k: at[id(v)] for k, v in ba.items()}
+        want = {'tasks': [('list', (('p', fctt.params[0]),))], 'parameters': [('p', 'parameters')], 'mock_tasks': [('p', 'input_tasks')], 'base_dir': [('p', 'base_dir')]}
+        ok = all(got.get(k) == v for k, v in want.items()) and set(got) <= set(want)
     rets = [n for n in A.typer.own_nodes(fctt) if isinstance(n, ast.Return)]
-    ret_ok = bool(rets) and all(isinstance(r.value, ast.Subscript) and 'fullname(' in src(r.value.slice) and fctt.params[0] in src(r.value.slice) for r in rets)
+    ret_ok = bool(rets)
+    for r in rets:
+        v = subst_single_assign(A, fctt, r.value) if r.value is not None else None
+        good = False
+        if isinstance(v, ast.Subscript):
+            base = subst_single_assign(A, fctt, v.value)
+            key = subst_single_assign(A, fctt, v.slice)
+            good = base in tcs and isinstance(key, ast.Call) and isinstance(key.func, ast.Attribute) and key.func.attr == 'fullname' and src(key.func.value) == fctt.params[0] \
+                and len(key.args) == 1 and isinstance(key.args[0], ast.Attribute) and key.args[0].attr == 'config' and subst_single_assign(A, fctt, key.args[0].value) in tcs
+        ret_ok = ret_ok and good
     R.check(ok and ret_ok, 'R19.4', 'create_test_task', key_of('create_test_task', ok, ret_ok), 'arguments forwarded, task looked up by full name', 'create_test_task does not forward its arguments unchanged / return the requested task', where=where(fctt))
 
     # ---- R19.5 / R19.6
